@@ -123,7 +123,10 @@ class Fast(Engine, extlib.Mixin):
     :ivar gear: the gear
     :type gear: int
     """
-    def start(self):
+    maker: "ks.core.factory" = None
+    """Named by its full dotted name, without an import."""
+    limit: "ks._impl.Engine.LIMIT" = 3
+    def start(self, how: "ks.core.factory" = None) -> "ks.core.Cyc":
         pass
     def stop(self):
         """Stop. See `start` and `Engine.start`.
@@ -208,4 +211,6 @@ OPTION_SETS = [
     {'rules': ['HIDDEN:ks._impl._Hidden', 'PRIVATE:ks.api.Point', 'PUBLIC:ks._impl'], 'extra': ['--process-types']},
     {'rules': ['HIDDEN:ks.cyc_b'], 'extra': ['--theme', 'readthedocs', '--sidebar-expand-depth', '3', '--sidebar-toc-depth', '3']},
     {'rules': ['PRIVATE:ks.core.F*', 'HIDDEN:ks.api.IPaint'], 'extra': ['--theme', 'classic']},
+    # every known subclass / implementation of some visible classes is hidden
+    {'rules': ['HIDDEN:ks.cyc_b', 'HIDDEN:ks.sub', 'HIDDEN:solo', 'HIDDEN:ks.api.Canvas', 'HIDDEN:ks.api.Sub'], 'extra': []},
 ]
